@@ -86,6 +86,54 @@ def gen_scalar_case(g: VGen, opts: dict) -> dict:
     return {"env": g.env, "v": v, "x": x, "stream": stream, "classes": g.classes}
 
 
+def gen_coercion_case(g: VGen, opts: dict) -> dict:
+    """C16: Decimal / UUID / date / datetime / tuple validators with their default coercers"""
+    from .gen import PARSE_TEXT, S
+    r = g.rng
+    g.reset()
+    ty = r.choice(["decimal", "uuid", "date", "datetime", "tuple"])
+    if ty == "tuple":
+        k = r.choice(["utuple", "ntuple"])
+        if k == "utuple":
+            v = {"k": "utuple", "vid": g.vid(), "item": {"k": "always", "vid": 1}, "preds": None, "apreds": None,
+                 "coerce": "default"}
+        else:
+            n = r.choice([0, 1, 2])
+            v = {"k": "ntuple", "vid": g.vid(), "fields": [{"k": "always", "vid": 1}] * n, "oc": None,
+                 "lenPid": g.pid(), "coerce": "default"}
+        c = r.random()
+        x = g.hostile() if c < 0.5 else {"t": r.choice(["tuple", "list"]), "oid": g.oid(),
+                                          "xs": [g.hostile(2) for _ in range(r.choice([0, 1, 2]))]}
+        if c > 0.85:
+            x = {"t": "sub", "cls": g.new_class(3, base=r.choice(["tuple", "list"])), "v": x if x["t"] in ("tuple", "list") else {"t": "tuple", "oid": g.oid(), "xs": []}}
+            if x["v"]["t"] != x["cls"]["base"]:
+                x["v"]["t"] = x["cls"]["base"]
+    else:
+        v = {"k": "scalar", "vid": g.vid(), "ty": ty, "coerce": "default", "pre": None, "preds": [], "apreds": None}
+        c = r.random()
+        if c < 0.3:
+            x = g.atom(ty)
+        elif c < 0.65:
+            x = S(r.choice(PARSE_TEXT))
+        elif c < 0.75:
+            # canonical text of a target value, possibly damaged
+            from . import wire as w
+            ctx = w.Ctx()
+            pv = w.mk_value(ctx, g.atom(ty))
+            text = pv.isoformat() if ty in ("date", "datetime") else str(pv)
+            if r.random() < 0.3 and text:
+                i = r.randrange(len(text))
+                text = text[:i] + r.choice(["", " ", "x", "_", "0"]) + text[i + 1:]
+            x = S(text)
+        elif c < 0.85:
+            x = g.sub_value(r.choice(["str", "int", "float"]))
+        else:
+            x = g.hostile()
+    if r.random() < 0.1:
+        v = {"k": "user", "vid": g.vid(), "inner": v}
+    return {"env": g.env, "v": v, "x": x, "stream": ty, "classes": g.classes}
+
+
 def gen_record_case(g: VGen, opts: dict) -> dict:
     """C04: a record-shaped validator at the root; present/absent/valid/invalid/extra key patterns"""
     r = g.rng
